@@ -440,6 +440,28 @@ func c03Run(r *core.Run) {
 		r.EndItem()
 	}
 
+	// another verifier in the same process trusts only hierarchy B: a quote that is self-consistent under B
+	// comes with this world's genuine collateral, signed under A.  That A's chain was validated (for callers
+	// trusting A) a moment ago is of no consequence: for this caller the collateral is signed by nobody it trusts.
+	if r.Item("second-verifier-trusting-only-B") {
+		qB, _ := quoteUnder(w, B, nil)
+		poolB := world.Pool(B.Root)
+		for _, level := range []int{O1, O2} {
+			o := verifyRaw(qB.Bytes(), mkOpts(level, w.PCS, poolB, w.Times))
+			r.Eval()
+			if o.Accepted() {
+				r.Violate("C03:accepted:"+d.route+":collateral-of-a-hierarchy-this-verifier-does-not-trust", "a verifier trusting only root B accepted (level %s) a quote under B together with collateral signed under root A, which it does not trust (other callers in the process, trusting A, verified that collateral before)", optNames[level])
+			}
+		}
+		// control: the same verifier without collateral checking accepts the chain it trusts
+		if o := verifyRaw(qB.Bytes(), mkOpts(O0, &failGetter{}, poolB, w.Times)); !o.Accepted() {
+			r.Count("control_failed", 1)
+		}
+		r.Fault("pki:second_verifier_with_other_roots", true)
+		r.Probe("second_verifier_with_other_roots")
+		r.State("second-verifier-trusting-only-B")
+		r.EndItem()
+	}
 	// single-bit flips of the body and of the issuer-chain header
 	prefix := len(`{"` + d.member + `":`)
 	memberEnd := prefix + len(d.genuine)
@@ -569,6 +591,6 @@ func init() {
 			return 46
 		},
 		Run:       c03Run,
-		MustProbe: []string{"flavour_down", "flavour_up", "dup_member_after_genuine_with_flipping_content", "default_anchor_lookalike_collateral"},
+		MustProbe: []string{"flavour_down", "flavour_up", "dup_member_after_genuine_with_flipping_content", "default_anchor_lookalike_collateral", "second_verifier_with_other_roots"},
 	})
 }
